@@ -1,6 +1,7 @@
 package main
 
 import (
+	"math"
 	"fmt"
 	"go/ast"
 	"go/constant"
@@ -266,27 +267,8 @@ func checkC16(w *World, r *Report) {
 		acc := acceptedStrings(p, bfd)
 		sort.Strings(acc)
 		r.Check(strings.Join(acc, ",") == "false,true", "R16.5", "boolean.Validate", bfd.Pos(), "true|false", "boolean accepts {"+strings.Join(acc, ",")+"}")
-		em := w.Method("schema", "empty", "Validate")
-		efd, _ := w.FuncDecl(em)
-		okE := false
-		if len(efd.Body.List) == 2 {
-			if is, isIf := efd.Body.List[0].(*ast.IfStmt); isIf {
-				if be, isB := ast.Unparen(is.Cond).(*ast.BinaryExpr); isB && be.Op == token.NEQ && objOfIdent(p, be.X) == paramObj(p, efd, 2) {
-					if v, isS := ConstStr(p, be.Y); isS && v == "" {
-						allErr := true
-						for _, ret := range returnsIn(is.Body) {
-							if isNilIdent(p, ret.Results[0]) {
-								allErr = false
-							}
-						}
-						if ret, isR := efd.Body.List[1].(*ast.ReturnStmt); isR && isNilIdent(p, ret.Results[0]) && allErr {
-							okE = true
-						}
-					}
-				}
-			}
-		}
-		r.Check(okE, "R16.5", "empty.Validate", efd.Pos(), "s != \"\" ⇒ error; else nil", "the empty type accepts a value")
+		accept, _, epos := emptyValidateTable(w)
+		r.Check(accept == "", "R16.5", "empty.Validate", epos, "s != \"\" ⇒ error; else nil", "the empty type accepts a value: "+accept)
 		for _, c := range []struct{ typ, field string }{{"enumeration", "enums"}, {"identityref", "identities"}} {
 			m := w.Method("schema", c.typ, "Validate")
 			fd, _ := w.FuncDecl(m)
@@ -432,38 +414,96 @@ func checkC16(w *World, r *Report) {
 
 	r.Rule("R16.7", "decimal64 lexical/bound check is unconditional: after the integer-only form, validateDecimal64String has no success exit before the four exact comparisons with the 64-bit limits", 1)
 	r.guard("R16.7", func() {
-		f := w.Func("schema", "validateDecimal64String")
-		fd, _ := w.FuncDecl(f)
-		// top-level statements: the only `return nil` at top level is the last statement; nested `return nil`
-		// only inside the `len(sSplit) == 1` block
-		nTop, nNested := 0, 0
-		for i, s := range fd.Body.List {
-			if ret, ok := s.(*ast.ReturnStmt); ok && isNilIdent(p, ret.Results[0]) {
-				if i == len(fd.Body.List)-1 {
-					nTop++
-				} else {
-					nNested += 10
+		f := w.SSAFunc(w.Func("schema", "validateDecimal64String"))
+		if f == nil {
+			panic(undecided{"schema.validateDecimal64String"})
+		}
+		// comparisons against a quantity computed from the 64-bit limits
+		fromLimit := func(v ssa.Value) bool {
+			seen := map[ssa.Value]bool{}
+			var walk func(v ssa.Value, d int) bool
+			walk = func(v ssa.Value, d int) bool {
+				if v == nil || seen[v] || d > 8 {
+					return false
 				}
-				continue
+				seen[v] = true
+				switch x := v.(type) {
+				case *ssa.Const:
+					if k, ok := intConstOf(x); ok && (k == math.MaxInt64 || k == math.MinInt64) {
+						return true
+					}
+				case *ssa.BinOp:
+					return walk(x.X, d+1) || walk(x.Y, d+1)
+				case *ssa.Phi:
+					for _, e := range x.Edges {
+						if walk(e, d+1) {
+							return true
+						}
+					}
+				case *ssa.Convert:
+					return walk(x.X, d+1)
+				}
+				return false
 			}
-			for _, ret := range returnsIn(s) {
-				if isNilIdent(p, ret.Results[0]) {
-					nNested++
+			return walk(v, 0)
+		}
+		var limitCmp []*ssa.BasicBlock
+		for _, b := range f.Blocks {
+			for _, in := range b.Instrs {
+				bo, ok := in.(*ssa.BinOp)
+				if !ok {
+					continue
+				}
+				switch bo.Op {
+				case token.LSS, token.GTR, token.LEQ, token.GEQ, token.EQL, token.NEQ:
+					if fromLimit(bo.X) || fromLimit(bo.Y) {
+						limitCmp = append(limitCmp, b)
+					}
 				}
 			}
 		}
-		// bound comparisons against max/min constants
-		cmp := 0
-		ast.Inspect(fd.Body, func(x ast.Node) bool {
-			if is, ok := x.(*ast.IfStmt); ok {
-				s := types.ExprString(is.Cond)
-				if (strings.Contains(s, "maxDecimal64") || strings.Contains(s, "minDecimal64")) && len(returnsIn(is.Body)) >= 0 {
-					cmp++
+		sym := NewSym(w)
+		isSplitLenOne := func(a *pcAtom) string {
+			if a.subj == "" || !a.set.equal(isetOf(1)) {
+				return ""
+			}
+			if bo, ok := a.v.(*ssa.BinOp); ok {
+				for _, side := range []ssa.Value{bo.X, bo.Y} {
+					if arg, ok := isLenCall(side); ok {
+						if c, ok := arg.(*ssa.Call); ok && c.Call.StaticCallee() != nil && c.Call.StaticCallee().String() == "strings.Split" {
+							return "intform"
+						}
+					}
 				}
 			}
-			return true
-		})
-		r.Check(nTop == 1 && nNested == 1 && cmp >= 4, "R16.7", "validateDecimal64String success exits", fd.Pos(), "one early success (integer form), one final success, ≥4 limit comparisons", fmt.Sprintf("%d nested and %d final success exits, %d limit comparisons: an early success exit skips the exact comparison with the 64-bit limits, leaving only the float comparison, which cannot tell max from max+1 unit", nNested, nTop, cmp))
+			return ""
+		}
+		nSucc, nEarly := 0, 0
+		why := ""
+		for _, b := range f.Blocks {
+			ret, ok := b.Instrs[len(b.Instrs)-1].(*ssa.Return)
+			if !ok || len(ret.Results) != 1 || !isNilConst(ret.Results[0]) {
+				continue
+			}
+			nSucc++
+			dom := 0
+			for _, lb := range limitCmp {
+				if lb.Dominates(b) {
+					dom++
+				}
+			}
+			if dom >= 4 {
+				continue
+			}
+			nEarly++
+			if msg := pcImplies(sym.PathCond(f.Blocks[0], b, nil), isSplitLenOne, func(env map[string]bool) bool { return env["intform"] }); msg != "" {
+				why = fmt.Sprintf("a success exit (%s) is preceded by only %d of the comparisons with the 64-bit limits and is not the integer-only form (%s)", w.PosStr(ret.Pos()), dom, msg)
+			}
+		}
+		if why == "" && (nSucc == nEarly || len(limitCmp) < 4) {
+			why = fmt.Sprintf("%d success exits, %d of them early; %d limit comparisons", nSucc, nEarly, len(limitCmp))
+		}
+		r.Check(why == "", "R16.7", "validateDecimal64String success exits", f.Pos(), "every success exit other than the integer-only form is dominated by the four outer comparisons with the 64-bit limits", why+": an early success exit skips the exact comparison with the 64-bit limits, leaving only the float comparison, which cannot tell max from max+1 unit")
 	})
 
 	r.Rule("R16.8", "identity closure: every identity derived (transitively) from the base is listed — identityValues appends each derived identity and descends into it unconditionally", 1)
@@ -508,4 +548,67 @@ func checkC16(w *World, r *Report) {
 		})
 		r.Check(ok, "R16.8", "identityValues lists every derived identity", fd.Pos(), "append + descend for each child, no skip", "a derived identity can be skipped (e.g. de-duplicated by its unqualified name): identities with the same local name in different modules, and everything derived from the skipped one, are rejected by the identityref")
 	})
+}
+
+// emptyValidateTable reads (*empty).Validate as a decision table.  accept is
+// "" when nil is returned exactly for the empty string; located is "" when
+// the error carries path[:len(path)-1] exactly when a value is present and the
+// path holds more than the value token.
+func emptyValidateTable(w *World) (accept, located string, pos token.Pos) {
+	f := w.SSAFunc(w.Method("schema", "empty", "Validate"))
+	if f == nil || len(f.Params) != 4 {
+		panic(undecided{"schema.(*empty).Validate"})
+	}
+	sym := NewSym(w)
+	pathP, valP := f.Params[2], f.Params[3]
+	nilCond, locCond := pcZ, pcZ
+	for _, row := range sym.retTable(f, 0) {
+		if isNilConst(row.val) {
+			nilCond = pcOrF(nilCond, row.cond)
+			continue
+		}
+		if c, ok := stripIface(row.val).(*ssa.Call); ok && len(c.Call.Args) == 2 {
+			if sl, ok := c.Call.Args[1].(*ssa.Slice); ok && sl.X == ssa.Value(pathP) && sl.Low == nil && sl.High != nil {
+				// path[:len(path)-1]
+				if bo, ok := sl.High.(*ssa.BinOp); ok && bo.Op == token.SUB {
+					if one, ok := intConstOf(bo.Y); ok && one == 1 {
+						if arg, ok := isLenCall(bo.X); ok && arg == ssa.Value(pathP) {
+							locCond = pcOrF(locCond, row.cond)
+						}
+					}
+				}
+			}
+		}
+	}
+	classify := func(a *pcAtom) string {
+		if a.subj == "" {
+			return ""
+		}
+		bo, ok := a.v.(*ssa.BinOp)
+		if !ok {
+			return ""
+		}
+		for _, side := range []ssa.Value{bo.X, bo.Y} {
+			if side == ssa.Value(valP) && a.set.equal(isetOf(0)) {
+				return "empty"
+			}
+			if arg, ok := isLenCall(side); ok {
+				if arg == ssa.Value(valP) && a.set.equal(isetOf(0)) {
+					return "empty"
+				}
+				if arg == ssa.Value(pathP) {
+					if a.set.equal(ISet{{0, 1}}) {
+						return "!long"
+					}
+					if a.set.equal(ISet{{2, fullISet[0].hi}}) {
+						return "long"
+					}
+				}
+			}
+		}
+		return ""
+	}
+	accept = pcCompare(nilCond, classify, func(env map[string]bool) bool { return env["empty"] })
+	located = pcCompare(locCond, classify, func(env map[string]bool) bool { return !env["empty"] && env["long"] })
+	return accept, located, f.Pos()
 }
